@@ -19,7 +19,7 @@ ASSUMPTIONS = ["negative indices, __setitem__, from_sequence and plain-int right
 UNARY = ["roundtrip", "invert", "str", "bytes", "iter", "eq_copy", "half", "half_np", "bit_length"]
 UNARY_K = ["higher", "lower", "lshift", "rshift", "index", "higher_over", "lower_over"]
 BINARY = ["and", "or", "xor", "concat", "eq", "concat_split"]
-OTHER = ["slice", "ctor_wide", "ctor_nolen", "half_int", "ctor_bytes_nolen"]
+OTHER = ["slice", "ctor_wide", "ctor_nolen", "half_int", "ctor_bytes_nolen", "chain", "chain", "chain"]
 
 
 # ---------------------------------------------------------------------------------------------------------
@@ -178,6 +178,50 @@ def run_case(case):
             want = [bool(b) for b in ma[s]]
             if got != want:
                 raise Violation("a[%r] = %r, model %r" % (s, got, want), "slice")
+        elif op == "chain":
+            # a multi-step history: every intermediate result feeds the next operation and is compared with the model
+            cur, mcur = a, ma
+            for i, st_ in enumerate(case["steps"]):
+                k = st_[0]
+                nn = len(mcur)
+                if k == "invert":
+                    cur, mcur = ~cur, [1 - x for x in mcur]
+                elif k == "lshift":
+                    sh = st_[1] % (nn + 2)
+                    cur, mcur = cur << sh, ((mcur + [0] * sh)[-nn:]) if nn else []
+                elif k == "rshift":
+                    sh = st_[1] % (nn + 2)
+                    cur, mcur = cur >> sh, ([0] * sh + mcur)[:nn]
+                elif k in ("and", "or", "xor", "concat"):
+                    o, mo = build(st_[1])
+                    if k == "concat":
+                        cur, mcur = cur + o, mcur + mo
+                    else:
+                        m = max(len(mcur), len(mo))
+                        za, zb = zext(mcur, m), zext(mo, m)
+                        f = {"and": lambda x, y: x & y, "or": lambda x, y: x | y, "xor": lambda x, y: x ^ y}[k]
+                        cur = {"and": lambda: cur & o, "or": lambda: cur | o, "xor": lambda: cur ^ o}[k]()
+                        mcur = [f(x, y) for x, y in zip(za, zb)]
+                elif k == "higher":
+                    kk = st_[1] % (nn + 1)
+                    cur, mcur = cur.get_higher_bits(kk), mcur[:kk]
+                elif k == "lower":
+                    kk = st_[1] % (nn + 1)
+                    cur, mcur = cur.get_lower_bits(kk), mcur[nn - kk:]
+                elif k in ("half_left", "half_right", "halfnp_left", "halfnp_right"):
+                    h = (nn + 1) // 2
+                    fn = bits_utils.half_bits if k.startswith("half_") else bits_utils.half_bits_not_padding
+                    left, right = fn(cur)
+                    if k.endswith("left"):
+                        cur = left
+                        mcur = zext(mcur[:nn - h], h) if k.startswith("half_") else mcur[:nn - h]
+                    else:
+                        cur, mcur = right, mcur[nn - h:]
+                else:
+                    raise ValueError(k)
+                same(cur, mcur, "chain step %d (%s)" % (i, k))
+                if str(cur) != "".join(str(x) for x in mcur) or list(cur) != [bool(x) for x in mcur]:
+                    raise Violation("chain step %d (%s): str/iter of the intermediate result differ from the model" % (i, k), "chain:str_iter")
         elif op in BINARY:
             b, mb = build(case["b"])
             same(b, mb, "ctor[%s]" % case["b"][2])
@@ -277,6 +321,21 @@ def st_case(draw):
         case["a"] = [v, v.bit_length(), draw(st.sampled_from(["int", "bitset"]))]
         return case
     case["a"] = draw(st_operand())
+    if op == "chain":
+        if draw(st.booleans()):
+            case["a"] = draw(st_operand(max_len=12))
+        steps = []
+        for _ in range(draw(st.integers(2, 5))):
+            k = draw(st.sampled_from(["invert", "invert", "lshift", "rshift", "and", "or", "xor", "xor", "concat", "higher", "lower",
+                                      "half_left", "half_right", "halfnp_left", "halfnp_right"]))
+            if k in ("lshift", "rshift", "higher", "lower"):
+                steps.append([k, draw(st.integers(0, 310))])
+            elif k in ("and", "or", "xor", "concat"):
+                steps.append([k, draw(st_operand(max_len=12 if case["a"][1] <= 12 else 300))])
+            else:
+                steps.append([k])
+        case["steps"] = steps
+        return case
     if op in UNARY_K:
         case["k"] = draw(st.integers(0, 310))
     if op in BINARY:
@@ -299,6 +358,8 @@ def st_case(draw):
 
 def is_nontrivial(case):
     ops = [case["a"]] + ([case["b"]] if "b" in case else [])
+    if case["op"] == "chain":
+        return True
     if any(o[1] > 8 or o[2] in ("int", "bitset") for o in ops):
         return True
     if "b" in case and case["a"][1] != case["b"][1]:
@@ -367,6 +428,18 @@ def _exhaustive(res, tier):
                 for s in itertools.product([None, -n - 1, -1, 0, 1, n // 2, n, n + 1], [None, -n - 1, -1, 0, 1, n // 2, n, n + 1],
                                            [None, -2, -1, 1, 2, 3]):
                     run({"op": "slice", "a": [v, n, "int_len"], "slice": list(s)})
+    # all two-step histories over {invert, lshift 1, rshift 1, xor b, half_left, lower n-1} for lengths <= 4 (operator results
+    # carry state of their own, so a second operation on them is a different code path from one on a fresh object)
+    two = [["invert"], ["lshift", 1], ["rshift", 1], ["half_left"], ["halfnp_left"], ["lower", 3], ["higher", 2]]
+    for n in range(0, 5):
+        for v in range(1 << n):
+            for vb in range(1 << n):
+                firsts = two + [["xor", [vb, n, "int_len"]], ["and", [vb, n, "int_len"]], ["concat", [vb, n, "int_len"]]]
+                for s1 in firsts:
+                    for s2 in two:
+                        run({"op": "chain", "a": [v, n, "int_len"], "steps": [s1, s2]})
+                if n == 0:
+                    break
     for na in range(0, max_pair + 1):
         for nb in range(0, max_pair + 1):
             for va in range(1 << na):
